@@ -1184,3 +1184,10 @@ MUTANTS.append({"id": "C13-mapping-built-while-translating", "prop": "C13", "ben
   "expect": "R13.5|merge_from|mapping-complete-before-first-translation",
   "edits": [("src/interrogatedb/interrogateDatabase.cxx", "        remap.add_mapping(other_type_index, this_type_index);\n      }\n    }\n  }\n\n  // Now that we know the full type-to-type mapping, we can copy the new\n  // types, one at a time.\n  for (ti = other._type_map.begin(); ti != other._type_map.end(); ++ti) {\n    TypeIndex other_type_index = (*ti).first;\n    const InterrogateType &other_type = (*ti).second;\n",
              "        remap.add_mapping(other_type_index, this_type_index);\n      }\n    }\n")]})
+
+M("C18-weeding-ignores-lower-boundary", "C18", "src/dtoolbase/pdtoa.cxx",
+  "  while (rest < wp_w && delta - rest >= ten_kappa &&", "  while (rest < wp_w && delta >= ten_kappa &&",
+  expect="R18.6|GrisuRound|weeding-condition")
+M("C18-benign-weeding-condition-order", "C18", "src/dtoolbase/pdtoa.cxx",
+  "  while (rest < wp_w && delta - rest >= ten_kappa &&", "  while (delta - rest >= ten_kappa && rest < wp_w &&",
+  benign=True)
